@@ -1283,6 +1283,12 @@ def check_c13_session(cfg, world, tr, acc):
     if got != want:
         V('C13', 'session-skips-rebalance', 'the session (start %s, %s) rebalanced at %d instants, its schedule has %d; skipped: %s'
           % (cfg['start'], cfg['rebalance'], len(got), len(want), [str(t) for t in want if t not in got][:3]))
+    # the schedule the session holds is still the schedule of its range once the run is over (a run reads it, it does not use it up)
+    after = [py(t) for t in tr.session.rebalance_schedule]
+    if after != sched:
+        V('C13', 'session-schedule-after-run', 'after run() the session (start %s, %s) holds a schedule of %d instants (%s...), the '
+          'dates of its range give %d' % (cfg['start'], cfg['rebalance'], len(after), [str(t) for t in after[:2]], len(sched)))
+    acc.count('C13:session_schedules_read_after_run')
     acc.count('C13:session_rebalances_observed', len(got))
     acc.count('C13:sessions_run')
 
